@@ -232,7 +232,18 @@ def cases(draw, max_channels=6, max_frames=25):
             subset = list(reversed(subset))
         if not subset:
             subset = [draw(st.sampled_from(all_names + ['nosuch']))]
-    return {'channels': channels, 'reduction': reduction, 'subset': subset, 'width': width, 'fmt': fmt}
+    case = {'channels': channels, 'reduction': reduction, 'subset': subset, 'width': width, 'fmt': fmt}
+    if draw(st.integers(0, 5)) == 0 and any(len(nm) < 4 for nm in all_names):
+        # identities padded to four characters, as the frame arrays made from LIS and BIT files have them ('SP  '); the
+        # subset names them exactly - or, for one of them, the way a user types it: without the padding
+        case['pad_names'] = True
+        subset = [nm.ljust(4) if nm in all_names else nm for nm in subset]
+        bare = [nm for nm in subset if nm.strip() != nm]
+        if bare and draw(st.booleans()):
+            k = subset.index(draw(st.sampled_from(bare)))
+            subset[k] = subset[k].strip()
+        case['subset'] = subset
+    return case
 
 
 # ---------------------------------------------------------------------------------------------
@@ -264,12 +275,19 @@ def reference_reduce(values, method, dtype):
     raise HarnessError('unknown reduction %r' % method)
 
 
-def expected_channels(case):
+def ident(case, c):
+    return c['name'].ljust(4) if case.get('pad_names') else c['name']
+
+
+def expected_channels(case, bare=False):
+    """bare=True: a subset name without the padding of the identity also names the channel (see check)."""
     chans = case['channels']
     if not case['subset']:
         return list(range(len(chans)))
     wanted = set(case['subset'])
-    return [i for i, c in enumerate(chans) if i == 0 or c['name'] in wanted]
+    if bare:
+        wanted |= {ident(case, c) for c in chans if ident(case, c).strip() in {w.strip() for w in wanted}}
+    return [i for i, c in enumerate(chans) if i == 0 or ident(case, c) in wanted]
 
 
 def split_written_text(text):
@@ -311,7 +329,7 @@ def build_frame_array(case):
     fa = LogPass.FrameArray('C10', 'generated')
     n = len(case['channels'][0]['values'])
     for c in case['channels']:
-        fa.append(LogPass.FrameChannel(c['name'], c['long'], c['units'], tuple(c['dims']), np.dtype(c['dtype'])))
+        fa.append(LogPass.FrameChannel(ident(case, c), c['long'], c['units'], tuple(c['dims']), np.dtype(c['dtype'])))
     fa.init_arrays(n)
     for c, ch in zip(case['channels'], fa.channels):
         arr = np.array(c['values'], dtype=np.dtype(c['dtype'])).reshape((n,) + tuple(c['dims']))
@@ -360,8 +378,11 @@ def check(case, cc, fa=None, subset_obj=None):
     cc.cls('multi-valued:2d', any(len(chans[i]['dims']) >= 2 for i in multi))
     cc.cls('subset:empty', not case['subset'])
     cc.cls('subset:omits-channel', omitted)
-    cc.cls('subset:without-index', bool(case['subset']) and chans[0]['name'] not in case['subset'])
-    cc.cls('subset:unknown-name', any(s not in [c['name'] for c in chans] for s in case['subset']))
+    cc.cls('subset:without-index', bool(case['subset']) and ident(case, chans[0]) not in case['subset'])
+    cc.cls('subset:unknown-name', any(s not in [ident(case, c) for c in chans] for s in case['subset']))
+    cc.cls('names:padded-to-4', bool(case.get('pad_names')))
+    cc.cls('subset:bare-name-of-a-padded-channel', bool(case.get('pad_names')) and any(
+        s_.strip() == s_ and s_.ljust(4) != s_ and s_.ljust(4) in [ident(case, c) for c in chans] for s_ in case['subset']))
     cc.cls('subset:only-index-written', bool(case['subset']) and len(want) == 1 and len(chans) > 1)
     cc.cls('channels:1', len(chans) == 1)
     for i in want:
@@ -384,6 +405,13 @@ def check(case, cc, fa=None, subset_obj=None):
     except ValueError as err:
         dev('text-structure', 'unrecognisable', '%s\n%s' % (err, text[:600]))
         return
+    if case.get('pad_names') and [c[0] for c in curves] != want_names:
+        # is 'SP' a request for the channel 'SP  '?  The statement does not say: either reading is accepted, but the curve
+        # section, the heading and the rows must agree on it
+        alt = expected_channels(case, bare=True)
+        if alt != want and [c[0] for c in curves] == [chans[i]['name'] for i in alt]:
+            cc.cls('subset:bare-name-taken-as-the-padded-channel')
+            want, want_names = alt, [chans[i]['name'] for i in alt]
     if [c[0] for c in curves] != want_names:
         dev('text-structure', 'curve-section-channels', 'curve section lists %r, expected %r (subset %r)' % (
             [c[0] for c in curves], want_names, case['subset']))
